@@ -205,7 +205,7 @@ func (g *c13gen) leaf() *cty {
 	return &cty{kind: primKinds[r.Intn(len(primKinds))]}
 }
 
-var labelPool = []string{"a", "b", "cc", "d1", "e_f", "Key", "zed"}
+var labelPool = []string{"a", "b", "cc", "d1", "e_f", "Key", "zed", "s2", "s1"} // s1 / s2: nested fields named like the steps of the with-step half
 
 func (g *c13gen) structOf(depth int, allowOpen bool) *cty {
 	r := g.c.Rng
